@@ -29,7 +29,7 @@ from modelx.core.formula import (
     HasFormula, create_closure
 )
 from modelx.core.util import is_valid_name
-from modelx.core.errors import NoneReturnedError
+from modelx.core.errors import NoneReturnedError, DeletedObjectError
 from modelx.core.node import ItemFactory, ItemFactoryImpl
 from modelx.core.namespace import BaseNamespaceReferrer
 
@@ -751,6 +751,10 @@ class CellsImpl(*_cells_impl_base):
         return self.system.executor.eval_node(node)
 
     def call(self, *args, **kwargs):
+        # Formulas in other spaces may still hold this bound method
+        # after the cells is deleted.
+        if self.interface._impl is not self:
+            raise DeletedObjectError("the object has been deleted")
         node = get_node(self, args, kwargs)
         return self.system.executor.eval_node(node)
 
